@@ -435,6 +435,7 @@ Proof.
   destruct r as [e|h]; [inversion H; subst; exact I|].
   destruct (t_obj t) as [c|] eqn:Eo; [|discriminate].
   destruct (t_once t) eqn:Eon; [inversion H; subst; exact I|].
+  destruct (t_run t) eqn:Erun; [|discriminate]. cbn [negb] in H.
   destruct (objs s c) as [o|] eqn:Ec; [|discriminate].
   pose proof (i_thread s I i t Et) as Hto. unfold thread_ok in Hto. rewrite Eo, Ep in Hto.
   destruct Hto as (o1 & Ho1 & Ha1 & Hrd & Hout & _). assert (o1 = o) by congruence; subst o1.
@@ -576,7 +577,7 @@ Proof.
   destruct (cancelled s i) eqn:Eca.
   - (* refused at the ctx check *)
     inversion H; subst s'; clear H.
-    set (t0 := {| t_addr := a; t_obj := None; t_pc := PRet (RErr ErrCtx); t_once := false |}) in *.
+    set (t0 := {| t_addr := a; t_obj := None; t_pc := PRet (RErr ErrCtx); t_run := false; t_once := false |}) in *.
     set (s1 := set_thread (set_tids s (i :: tids s)) i t0) in *.
     assert (Hh : forall c, holders s1 c = holders s c).
     { intros c. rewrite (holders_new s s1 i t0 c); auto. }
@@ -602,7 +603,7 @@ Proof.
       inversion H; subst s'; clear H.
       destruct (i_conns s I a cid Eca2) as (o1 & Ho1 & Ha1). assert (o1 = o) by congruence; subst o1.
       assert (Hci : cid <> i) by (eapply Hobj_ne; eauto).
-      set (t0 := {| t_addr := a; t_obj := Some cid; t_pc := PJoined; t_once := false |}) in *.
+      set (t0 := {| t_addr := a; t_obj := Some cid; t_pc := PJoined; t_run := false; t_once := false |}) in *.
       set (o' := with_ref o (c_ref o + 1)) in *.
       set (s1 := set_thread (set_obj (set_tids s (i :: tids s)) cid o') i t0) in *.
       assert (Hh : forall c, holders s1 c = (b2n (Nat.eqb cid c) + holders s c)%nat).
@@ -653,7 +654,7 @@ Proof.
       * apply I.
     + (* no entry: create the object, start its dialer *)
       inversion H; subst s'; clear H.
-      set (t0 := {| t_addr := a; t_obj := Some i; t_pc := PJoined; t_once := false |}) in *.
+      set (t0 := {| t_addr := a; t_obj := Some i; t_pc := PJoined; t_run := false; t_once := false |}) in *.
       set (o' := with_ref (new_conn a k) 1) in *.
       set (s1 := set_thread (set_obj (set_conns (set_tids s (i :: tids s)) (upd (conns s) a (Some i))) i o') i t0) in *.
       assert (Hh : forall c, holders s1 c = (b2n (Nat.eqb i c) + holders s c)%nat).
@@ -703,6 +704,20 @@ Proof.
       * apply I.
 Qed.
 
+Lemma inv_relbegin s i s' : inv s -> step s (LRelBegin i) = Some s' -> inv s'.
+Proof.
+  intros I H. unfold step in H. rewrite (i_np s I) in H.
+  destruct (thr s i) as [t|] eqn:Et; [|discriminate].
+  destruct (t_pc t) as [| |r] eqn:Ep; try discriminate.
+  destruct r as [e|h]; [inversion H; subst; exact I|].
+  destruct (t_obj t) as [c|] eqn:Eo; [|discriminate].
+  destruct (t_once t || t_run t); inversion H; subst s'; clear H; [exact I|].
+  pose proof (i_thread s I i t Et) as Hto.
+  eapply inv_set_thread; eauto.
+  - unfold thread_ok in *. cbn. rewrite Eo in *. rewrite Ep in *. exact Hto.
+  - intros c0. left. unfold holds. cbn. reflexivity.
+Qed.
+
 Lemma inv_step s l s' : inv s -> step s l = Some s' -> inv s'.
 Proof.
   intros I H. destruct l.
@@ -714,6 +729,7 @@ Proof.
   - eapply inv_failready; eauto.
   - eapply inv_pass; eauto.
   - eapply inv_wait; eauto.
+  - eapply inv_relbegin; eauto.
   - eapply inv_release; eauto.
   - unfold step in H. rewrite (i_np s I) in H. inversion H; subst. now apply inv_cancel.
 Qed.
@@ -905,13 +921,14 @@ Qed.
 (** the release by the last holder closes the handle and deletes the entry *)
 Theorem last_release_closes s i t c h s' :
   reachable s -> thr s i = Some t -> t_obj t = Some c -> t_pc t = PRet (RConn h) -> t_once t = false ->
+  t_run t = true ->
   holders s c = 1%nat -> step s (LRelease i) = Some s' ->
   In c (close_log s') /\ conns s' (t_addr t) = None /\ panicked s' = false.
 Proof.
-  intros H Ht Ho Hp Hon Hone Hs. pose proof (inv_reachable s H) as I.
+  intros H Ht Ho Hp Hon Hrun Hone Hs. pose proof (inv_reachable s H) as I.
   destruct (holder_facts s i t c h I Ht Ho Hp) as (o & Hc & Ha & Hd & He & Hh & Hcc & Hrf).
   pose proof (remove_finds_own_entry_on_release s i t c h o H Ht Ho Hp Hon Hc) as Hreg.
-  unfold step in Hs. rewrite (i_np s I), Ht, Hp, Ho, Hon, Hc in Hs. cbn in Hs.
+  unfold step in Hs. rewrite (i_np s I), Ht, Hp, Ho, Hon, Hrun, Hc in Hs. cbn in Hs.
   rewrite Hrf, Hone in Hs. cbn in Hs. inversion Hs; subst s'; clear Hs.
   unfold remove. cbn. rewrite Hreg, upd_same. cbn. rewrite Hcc. cbn.
   rewrite <- Ha, upd_same. repeat split; auto. apply I.
@@ -1062,10 +1079,10 @@ Qed.
     released twice; thread 1 still holds the handle *)
 Definition sched_shared : list label :=
   [LReq 0 0 true; LSpawn 0; LReq 1 0 true; LPass 0; LPass 1; LDialRet 0 true; LWait 0; LWait 1;
-   LRelease 0; LRelease 0]%nat.
+   LRelBegin 0; LRelease 0; LRelBegin 0; LRelease 0]%nat.
 
 (** ... then thread 1 releases too, and thread 2 asks for the same address *)
-Definition sched_closed : list label := sched_shared ++ [LRelease 1]%nat.
+Definition sched_closed : list label := sched_shared ++ [LRelBegin 1; LRelease 1]%nat.
 Definition sched_fresh : list label := sched_closed ++ [LReq 2 0 true; LSpawn 2]%nat.
 
 (** threads 0,1,2 share one failing dial; 2 arrives between the Dial's return
@@ -1087,7 +1104,7 @@ Example ex_shared :
      t_pc t0 = PRet (RConn (Some 0%nat)) /\ t_pc t1 = PRet (RConn (Some 0%nat)) /\
      t_once t0 = true /\ t_once t1 = false) /\
   holds_at s 0 1 = true /\ holders s 0 = 1%nat /\ close_log s = [] /\
-  step s (LRelease 1) <> None.
+  step s (LRelBegin 1) <> None.
 Proof.
   cbv zeta. split; [ex_reach|]. split.
   - do 2 eexists. repeat split; vm_compute; reflexivity.
